@@ -22,6 +22,7 @@ type Plan struct {
 	Transfer  *TransferPlan   `json:"transfer,omitempty"`
 	Seeding   *SeedPlan       `json:"seeding,omitempty"`
 	Lifecycle *LifePlan       `json:"lifecycle,omitempty"`
+	Trackers  *TrackerPlan    `json:"trackers,omitempty"`
 	Generic   json.RawMessage `json:"generic,omitempty"`
 }
 
